@@ -173,7 +173,7 @@ func toNode(v any) gen.Node {
 		}
 		return o
 	}
-	return gen.String(fmt.Sprintf("%v", v))
+	return gen.String(fmt.Sprintf("%T", v))
 }
 
 var baseTime = time.Date(2021, 4, 12, 16, 34, 4, 123456789, time.UTC)
